@@ -27,28 +27,36 @@ func loadSpecs(repo string) (*Specs, error) {
 		return nil, err
 	}
 	S.Prelude = string(pb)
-	reSig := regexp.MustCompile(`^\s*\((declare-fun|define-fun|define-fun-rec)\s+(\S+)\s+\(([^)]*(?:\([^)]*\)[^)]*)*)\)\s+(\([^)]*\)|\S+)`)
-	reConst := regexp.MustCompile(`^\s*\(declare-const\s+(\S+)\s+(\([^)]*\)|\S+)\)`)
-	for _, ln := range strings.Split(S.Prelude, "\n") {
-		if m := reConst.FindStringSubmatch(ln); m != nil {
-			S.Sigs[m[1]] = &SmtSig{Name: m[1], Ret: m[2]}
+	for _, form := range topForms(S.Prelude) {
+		toks := sexpTokens(form)
+		if len(toks) < 4 || toks[0] != "(" {
 			continue
 		}
-		m := reSig.FindStringSubmatch(ln)
-		if m == nil {
-			continue
-		}
-		sig := &SmtSig{Name: m[2], Ret: m[4]}
-		args := strings.TrimSpace(m[3])
-		if m[1] == "declare-fun" {
-			sig.Args = splitSorts(args)
-		} else {
-			// ((x Int) (y BSeq))
-			for _, b := range regexp.MustCompile(`\(\s*\S+\s+(\([^)]*\)|[^()\s]+)\s*\)`).FindAllStringSubmatch(args, -1) {
-				sig.Args = append(sig.Args, b[1])
+		switch toks[1] {
+		case "declare-const":
+			S.Sigs[toks[2]] = &SmtSig{Name: toks[2], Ret: joinSort(toks[3 : len(toks)-1])}
+		case "declare-fun":
+			// ( declare-fun name ( sorts ) ret )
+			k := 3
+			args, k2 := sortList(toks, k)
+			S.Sigs[toks[2]] = &SmtSig{Name: toks[2], Args: args, Ret: joinSort(oneSort(toks, k2))}
+		case "define-fun", "define-fun-rec":
+			// ( define-fun name ( (x S) ... ) ret body )
+			k := 3
+			var args []string
+			if toks[k] == "(" {
+				k++
+				for toks[k] == "(" {
+					// ( x sort )
+					k += 2
+					so := oneSort(toks, k)
+					args = append(args, joinSort(so))
+					k += len(so) + 1
+				}
+				k++
 			}
+			S.Sigs[toks[2]] = &SmtSig{Name: toks[2], Args: args, Ret: joinSort(oneSort(toks, k))}
 		}
-		S.Sigs[sig.Name] = sig
 	}
 	specs, _ := filepath.Glob(filepath.Join(verifDir, "spec", "*.spec"))
 	sort.Strings(specs)
@@ -120,6 +128,7 @@ func newEngine(repo string, opt Options) (*Engine, error) {
 	}
 	E := &Engine{sentinel: map[*ssa.Global]bool{}, mutableGlobals: map[*ssa.Global]string{}, P: P, S: S, typeIDs: map[string]int{}, globals: map[*ssa.Global]int{}, typesByName: map[string]types.Type{}, Opt: opt}
 	E.scanGlobals()
+	theEngine = E
 	return E, nil
 }
 
@@ -332,4 +341,105 @@ func cmdCheck(args []string) {
 	rep.WallS = time.Since(start).Seconds()
 	code := rep.finish(E, *prop, cfg, *tier, seed)
 	os.Exit(code)
+}
+
+// ---- tiny s-expression helpers for reading prelude signatures ----
+
+func topForms(src string) []string {
+	var out []string
+	d := 0
+	start := -1
+	inComment := false
+	for i := 0; i < len(src); i++ {
+		c := src[i]
+		if inComment {
+			if c == '\n' {
+				inComment = false
+			}
+			continue
+		}
+		switch c {
+		case ';':
+			inComment = true
+		case '(':
+			if d == 0 {
+				start = i
+			}
+			d++
+		case ')':
+			d--
+			if d == 0 && start >= 0 {
+				out = append(out, src[start:i+1])
+				start = -1
+			}
+		}
+	}
+	return out
+}
+
+func sexpTokens(s string) []string {
+	var out []string
+	cur := ""
+	flush := func() {
+		if cur != "" {
+			out = append(out, cur)
+			cur = ""
+		}
+	}
+	for i := 0; i < len(s); i++ {
+		c := s[i]
+		switch {
+		case c == ';':
+			for i < len(s) && s[i] != '\n' {
+				i++
+			}
+		case c == '(' || c == ')':
+			flush()
+			out = append(out, string(c))
+		case c == ' ' || c == '\n' || c == '\t':
+			flush()
+		default:
+			cur += string(c)
+		}
+	}
+	flush()
+	return out
+}
+
+// oneSort returns the tokens of the sort starting at toks[k]
+func oneSort(toks []string, k int) []string {
+	if toks[k] != "(" {
+		return toks[k : k+1]
+	}
+	d := 0
+	for i := k; i < len(toks); i++ {
+		if toks[i] == "(" {
+			d++
+		} else if toks[i] == ")" {
+			d--
+			if d == 0 {
+				return toks[k : i+1]
+			}
+		}
+	}
+	return toks[k:]
+}
+
+// sortList parses "( s1 s2 ... )" at toks[k]; returns the sorts and the index after the list
+func sortList(toks []string, k int) ([]string, int) {
+	var out []string
+	k++ // (
+	for toks[k] != ")" {
+		so := oneSort(toks, k)
+		out = append(out, joinSort(so))
+		k += len(so)
+	}
+	return out, k + 1
+}
+
+func joinSort(toks []string) string {
+	s := strings.Join(toks, " ")
+	s = strings.ReplaceAll(s, "( ", "(")
+	s = strings.ReplaceAll(s, " )", ")")
+	return s
 }
